@@ -53,31 +53,44 @@ Section Total.
     destruct (update_mode_total inner it st a Fa Hi) as (st1 & ->). simpl. apply IH. exact Fr.
   Qed.
 
-  Lemma outer_loop_total inner modes : 0 < inner -> Forall (fun m => m < n) modes ->
-    forall fuel it st, exists st', outer_loop dM op val msub madd E inner fuel it modes st = Ok st'.
+  Lemma err_defined_last modes fs : In (n - 1) modes -> err_defined E n modes fs = true.
   Proof.
-    intros Hi F. induction fuel as [|f IH]; intros it st; simpl; [eauto|].
+    intros H. unfold err_defined. destruct modes as [|a r]; [contradiction|].
+    apply memb_In in H. rewrite H. reflexivity.
+  Qed.
+
+  Lemma outer_loop_total inner modes : 0 < inner -> Forall (fun m => m < n) modes -> In (n - 1) modes ->
+    forall fuel it st, exists st', outer_loop dM op val msub madd E n inner fuel it modes st = Ok st'.
+  Proof.
+    intros Hi F Hl. induction fuel as [|f IH]; intros it st; simpl; [eauto|].
     destruct (sweep_total inner it Hi modes st F) as (st1 & ->). simpl.
+    rewrite err_defined_last by exact Hl.
     destruct (e_stop E it (fst st1) (snd st1)); [eauto | apply IH].
   Qed.
 
-  Lemma prox_all_total : forall fs i, i + length fs <= n -> exists fs', prox_all op val i fs = Ok fs'.
+  Lemma prox_all_total : forall fs i, i + length fs <= n -> exists fs', prox_all op val i fs = Ok fs' /\ length fs' = length fs.
   Proof.
     induction fs as [|f r IH]; intros i H; simpl in *; [eauto|].
     destruct (proximal_operator_total i f) as (f' & ->); [lia|]. simpl.
-    destruct (IH (S i)) as (r' & ->); [lia|]. simpl. eauto.
+    destruct (IH (S i)) as (r' & -> & L); [lia|]. simpl. eexists. split; [reflexivity | simpl; congruence].
   Qed.
 
-  Theorem cp_total i0 fixed n_outer n_inner zero : 0 < n -> 0 < n_inner -> length (init_factors i0) <= n ->
+  (* a run succeeds when: the order is >= 1, the inner budget is >= 1, there are exactly n initial factors, and - unless the
+     outer budget is 0 - the last mode is updated (always the case when fixed_modes has no repeated entry) *)
+  Theorem cp_total i0 fixed n_outer n_inner zero : 0 < n -> 0 < n_inner -> length (init_factors i0) = n ->
+    n_outer = 0 \/ In (n - 1) (modes_list n fixed) ->
     exists fs, constrained_cp dM op val msub madd E n i0 fixed n_outer n_inner zero = Ok fs.
   Proof.
-    intros Hn Hi Hl. unfold constrained_cp. destruct (val_ok 0 Hn) as (c & ->). simpl.
-    assert (I : exists fs0, initialize op val i0 = Ok fs0).
-    { destruct i0 as [raw | ufs]; simpl in *; [apply prox_all_total; lia | eauto]. }
-    destruct I as (fs0 & ->). simpl.
+    intros Hn Hi Hl Hu. unfold constrained_cp. destruct (val_ok 0 Hn) as (c & ->). simpl.
+    assert (I : exists fs0, initialize op val i0 = Ok fs0 /\ length fs0 = n).
+    { destruct i0 as [raw | ufs]; simpl in *; [|eauto].
+      destruct (prox_all_total raw 0) as (fs' & -> & L); [lia|]. eexists. split; [reflexivity | congruence]. }
+    destruct I as (fs0 & -> & L0). simpl. rewrite L0, Nat.eqb_refl, andb_false_r.
+    destruct Hu as [-> | Hu]; [simpl; eauto|].
     destruct (outer_loop_total n_inner (modes_list n fixed) Hi) with (fuel := n_outer) (it := 0)
       (st := (fs0, map (fun _ : M => zero) fs0)) as (st & ->).
     - apply Forall_forall. intros m Hm. eapply modes_list_lt; eauto.
+    - exact Hu.
     - simpl. eauto.
   Qed.
 End Total.
@@ -87,23 +100,24 @@ Section TotalKeys.
 
   (* a request that validate_constraints accepts is not rejected by the decomposition *)
   Theorem zcp_valid_request_returns n (sp : list (kind * @zspec P)) tab (E : env (M := M)) i0 fixed n_outer n_inner zero :
-    zvalidate_table truthy n sp = Ok tab -> 0 < n -> 0 < n_inner -> length (init_factors i0) <= n ->
+    zvalidate_table truthy n sp = Ok tab -> 0 < n -> 0 < n_inner -> length (init_factors i0) = n ->
+    n_outer = 0 \/ In (n - 1) (modes_list n fixed) ->
     exists fs, constrained_cp dM op (zvalidate truthy n sp) msub madd E n i0 fixed n_outer n_inner zero = Ok fs.
   Proof.
-    intros H Hn Hi Hl. apply cp_total; auto.
+    intros H Hn Hi Hl Hu. apply cp_total; auto.
     intros m Hm. unfold zvalidate. rewrite H. simpl. apply Nat.ltb_lt in Hm. rewrite Hm. eauto.
   Qed.
 
   (* the decomposition raises exactly on the requests that put two constraints on one mode / address no existing mode *)
   Theorem zcp_err_iff n (sp : list (kind * @zspec P)) (E : env (M := M)) i0 fixed n_outer n_inner zero :
-    zwf_specs sp -> 0 < n -> 0 < n_inner -> length (init_factors i0) <= n ->
+    zwf_specs sp -> 0 < n -> 0 < n_inner -> length (init_factors i0) = n -> n_outer = 0 \/ In (n - 1) (modes_list n fixed) ->
     (constrained_cp dM op (zvalidate truthy n sp) msub madd E n i0 fixed n_outer n_inner zero = Err <->
      zdouble truthy n sp \/ zself_alias n sp \/ zno_mode truthy n sp).
   Proof.
-    intros Wf Hn Hi Hl. split.
+    intros Wf Hn Hi Hl Hu. split.
     - intros H. apply (zvalidate_table_err_iff truthy n sp Wf).
       destruct (zvalidate_table truthy n sp) as [tab|] eqn:T; [|reflexivity].
-      destruct (zcp_valid_request_returns n sp tab E i0 fixed n_outer n_inner zero T Hn Hi Hl) as (fs & X).
+      destruct (zcp_valid_request_returns n sp tab E i0 fixed n_outer n_inner zero T Hn Hi Hl Hu) as (fs & X).
       rewrite X in H. discriminate H.
     - apply zcp_rejects. exact Wf.
   Qed.
